@@ -471,7 +471,10 @@ package channels
 // Construction: the state machine group gets exactly the table, entry functions and finality states above
 
 //@ extern func github.com/filecoin-project/go-ds-versioning/pkg/fsm.NewVersionedFSM
+//@   ensures [dependency] result2 == nil ==> result0 != nil && result1 != nil -- assumed of go-ds-versioning: a versioned state group and its migration function on success
 //@ func channels.New {C13,C02,C09,C17,C06}
+//@   constructor
+//@   requires notifier != nil
 //@   ensures [wiring] calls(NewVersionedFSM) <= 1 && all(NewVersionedFSM, $0 == ds && $1.Environment == env && $1.StateKeyField == "Status" &&
 //@       $1.Events == ChannelEvents && $1.StateEntryFuncs == ChannelStateEntryFuncs && $1.FinalityStates == ChannelFinalityStates &&
 //@       $3 == "3" && dyntype_is($1.StateType, internal.ChannelState))
@@ -521,3 +524,10 @@ package channels
 // lock effects of this package's interfaces (C20)
 //@ extern func (channels.ChannelEnvironment).CleanupChannel
 //@   acquires {C20} graphsync.Transport.dtChannelsLk, graphsync.dtChannel.lk, graphsync.dtChannel.optionsLk, graphsync.requestIDToChannelIDMap.lk, tracing.SpansIndex.spansLk, transportoptions.TransportOptions.optionsLk
+
+//@ func channels.newBlockIndexCache {C07,C20}
+//@   pure
+//@   constructor
+//@ func channels.newProgressCache {C08,C20}
+//@   pure
+//@   constructor
